@@ -206,6 +206,26 @@ func c14ConcOracle(c c14ConcCase) error {
 						errs[w] = fmt.Errorf("worker %d: concurrent scan differs from the sequential one", w)
 						return
 					}
+				case op == 9:
+					// a race report followed by text: the returned remainder must still read the
+					// same after another, unrelated scan (here and in other goroutines)
+					tail := []byte(fmt.Sprintf("worker %d tail line\nsecond tail line of worker %d\n", w, w))
+					in := append(append([]byte("intro\n"), raceFixture...), tail...)
+					sn, suffix, err := stack.ScanSnapshot(bytes.NewReader(in), io.Discard, &stack.Opts{})
+					if sn == nil || err != nil {
+						errs[w] = fmt.Errorf("worker %d: race fixture: snapshot=%v err=%v", w, sn != nil, err)
+						return
+					}
+					_, _, _ = stack.ScanSnapshot(bytes.NewReader(bytes.Repeat([]byte("overwrite the read buffer with other text\n"), 300)), io.Discard, &stack.Opts{})
+					runtime.Gosched()
+					if !bytes.Equal(suffix, tail) {
+						errs[w] = fmt.Errorf("worker %d: the remainder returned by an earlier scan changed after a later scan: %q", w, quoteShort(suffix))
+						return
+					}
+					if sn.Goroutines[0].State != "running" || sn.Goroutines[0].Stack.Calls[0].Func.Name != "racer.func1" {
+						errs[w] = fmt.Errorf("worker %d: an earlier snapshot changed after a later scan", w)
+						return
+					}
 				case op == 8:
 					// the text building block of every renderer: Signature/Args/Arg String()
 					for _, g := range snap.Goroutines {
@@ -234,6 +254,8 @@ func c14ConcOracle(c c14ConcCase) error {
 	return nil
 }
 
+var raceFixture = []byte("==================\nWARNING: DATA RACE\nRead at 0x00c000012340 by goroutine 7:\n  main.racer.func1()\n      /src/r.go:12 +0x3a\n\nPrevious write at 0x00c000012340 by goroutine 6:\n  main.racer.func1()\n      /src/r.go:12 +0x50\n\nGoroutine 7 (running) created at:\n  main.racer()\n      /src/r.go:20 +0x8f\n\nGoroutine 6 (finished) created at:\n  main.racer()\n      /src/r.go:20 +0x8f\n==================\n")
+
 var c14Conc = Check[c14ConcCase]{
 	Prop: "C14", Name: "concurrent",
 	Gen: func(t *rapid.T) c14ConcCase {
@@ -256,7 +278,7 @@ var c14Conc = Check[c14ConcCase]{
 		nw := rapid.IntRange(2, 16).Draw(t, "workers")
 		c := c14ConcCase{D: d, Procs: rapid.SampledFrom([]int{1, 2, 16}).Draw(t, "procs")}
 		for w := 0; w < nw; w++ {
-			c.Workers = append(c.Workers, rapid.SliceOfN(rapid.IntRange(0, 8), 1, 8).Draw(t, "ops"))
+			c.Workers = append(c.Workers, rapid.SliceOfN(rapid.IntRange(0, 9), 1, 8).Draw(t, "ops"))
 		}
 		return c
 	},
